@@ -12,13 +12,46 @@ def df_of(body, facts):
     return _df_cache[k]
 
 
+_LT = None
+
+
+def _strip_paths(t):
+    """`a::b::C<d::E>` -> `C<E>` (module prefixes removed everywhere)"""
+    import re
+    return re.sub(r"(?:[A-Za-z_][A-Za-z0-9_]*::)+(?=[A-Za-z_<\[(&])", "", t)
+
+
 def fn_short(path):
-    parts = [p for p in path.replace("<", "").replace(">", "").split("::")]
-    keep = [p for p in parts if p and not p.startswith("{")]
-    tail = keep[-2:] if len(keep) >= 2 else keep
-    s = "::".join(tail)
-    n = path.count("{closure")
-    return s + ("{closure}" * n if n else "")
+    """stable, readable, line-free key of a function path: `Type::method[Trait]`, `module::function`, closures as {closure}"""
+    import re
+    s = re.sub(r"'[A-Za-z_][A-Za-z0-9_]*(?:, )?", "", path).replace("<>", "").replace("::<>", "")
+    ncl = s.count("::{closure")
+    s = re.sub(r"::\{closure#\d+\}", "", s)
+    tail = "{closure}" * ncl
+    m = re.match(r"^<(.+) as ([^>]+(?:<.*>)?)>::(\w+)(.*)$", s)
+    if m:
+        ty, tr, meth, rest = m.groups()
+        return "%s::%s[%s]%s%s" % (_strip_paths(ty), meth, _strip_paths(tr).split("<")[0], _strip_paths(rest), tail)
+    # inherent / free
+    segs = []
+    depth = 0
+    cur = ""
+    for ch in s:
+        if ch == "<":
+            depth += 1
+        elif ch == ">":
+            depth -= 1
+        if ch == ":" and depth == 0:
+            if cur:
+                segs.append(cur)
+            cur = ""
+        else:
+            cur += ch
+    if cur:
+        segs.append(cur)
+    segs = [x for x in segs if x and not x.startswith("<")]
+    keep = segs[-2:] if len(segs) >= 2 else segs
+    return "::".join(_strip_paths(x) for x in keep) + tail
 
 
 def enum_variant_of_operand(body, op, depth=0):
